@@ -22,7 +22,7 @@ CHECKS = {
             "For every enumerated network, restriction set, algorithm, direction and orientation: Ok with a valid non-empty route iff the destination is BFS-reachable over permitted edges, otherwise exactly the no-path error; destination-less searches return exactly the reachable set with least-cost labels.",
             "Trusted: refmodel BFS/Bellman-Ford. Restrictions are an edge-set frontier model supplied by the harness (the repository's own restriction models are exercised in C04).", "§4.5"),
     "C06": ("E2+E1+E3", "exhaustive enumeration of batch histories x configurations on the real CompassApp::run vs alone-responses; exhaustive weight vectors on the load balancer; stateless schedule exploration (preemption-bounded DFS over lock/write points) of the real batch workers",
-            "(a) every ordered batch of length 1-3 (quick) / 1-4 (thorough) over 7 query kinds x configured parallelism 1-4 x per-run override x balancer {none, haversine, custom} x both persistence policies: the multiset of projected responses equals the union of what each query returns alone, count = sum of expansions, file and returned responses agree; (b) all weight vectors {absent,0,1,2,5}^n (n<=5/6) x parallelism 1-4 through apply_load_balancing_policy: every query in exactly one of <= parallelism bins, balanced; (c) E3: 2x2 scenario explored completely (3 864 schedules), 3-task and shared-prediction-cache scenarios up to a preemption bound: each task's returned responses equal the alone-responses in order, no deadlock.",
+            "(a) every ordered batch of length 1-3 (quick) / 1-4 (thorough) over 7 query kinds x configured parallelism 1-4 x per-run override x balancer {none, haversine, custom} x both persistence policies: the multiset of projected responses equals the union of what each query returns alone, count = sum of expansions, file and returned responses agree; (b) all weight vectors {absent,0,1,2,5}^n (n<=5/6) x parallelism 1-4 through apply_load_balancing_policy: every query in exactly one of <= parallelism bins, balanced; (c) E3: 2x2 scenario explored completely (3 864 schedules), 3-task and shared-prediction-cache scenarios (warm cache; cold cache = a fresh application built for every explored schedule, with the workers meeting the cache keys in the same and in different orders) up to a preemption bound: each task's returned responses equal the alone-responses in order, no deadlock.",
             "Trusted: rayon's scheduler/collect; structural argument that shared state is only behind the hooked mutex sites and the file (DESIGN §2.3); floats compared at 12 significant digits (hash-ordered sums).", "§4.6"),
     "C07": ("E1", "bounded-exhaustive enumeration of cost configurations x state-pair lattice on CostModel and EdgeTraversal vs closed-form cost",
             "Every cost configuration of the alphabet (1-3 features, weights incl. zero and negative, 8 rate mappings incl. nested combined, 5 network rates, sum/mul) is evaluated on every (prev,next) pair of the {-2..2}^k lattice through traversal_cost, access_cost, cost_estimate and through forward/reverse EdgeTraversal with synthetic access/traversal models: finite, strictly positive (non-negative for estimates), equal to the formula with floor under sum, linear in weights, zero-weight features ignored.",
@@ -58,7 +58,7 @@ CHECKS = {
             "1-3 grid fields x sizes 1-3(4) x element kinds (scalar, object with 1-2 keys, mixed) x every key order x extra fields x section position, through GridSearchPlugin::process and apply_input_plugins: canonical multiset of outputs equals the reference product, count = product of sizes, no grid key left, extras preserved, pass-through unchanged.",
             "Trusted: reference product (props/c17.rs). Object-valued choices use disjoint keys.", "§4.17"),
     "C19": ("E3+E2", "stateless schedule exploration (CHESS-style preemption-bounded DFS over every lock, write and flush on the shared sink, each schedule re-run from scratch on the real worker code) + explicit enumeration of append histories",
-            "(a) K one-thread worker pools each run the real run_batch_with_responses / run_batch_without_responses against one shared ResponseSink (JSON lines and CSV, flush rate 1/2, both persistence policies, successes and errors of different sizes): all schedules of the 2x2 scenarios (2 630 - 3 864 each, no bound), 3-task scenarios up to preemption bound 2-3 (quick) / 3-5 (thorough); oracle on the final file: one terminated record per response, every JSON line parses, multiset of records = responses produced, CSV single header + rows per mapping in header order, no deadlock; all 6 (60) file orders observed. (b) histories of 1-2(3) runs appending to one file x 4 formats x persistence x parallelism: single header, rows accumulate, returned responses keep their information, input-plugin failures are written.",
+            "(a) K one-thread worker pools each run the real run_batch_with_responses / run_batch_without_responses against one shared ResponseSink (JSON lines and CSV, flush rate 1/2, both persistence policies, successes and errors of different sizes): all schedules of the 2x2 scenarios (2 630 - 3 864 each, no bound), 3-task scenarios up to preemption bound 2-3 (quick) / 3-5 (thorough); two scenarios with one Combined sink over a JSON-lines and a CSV file (both files judged); oracle on the final file: one terminated record per response, every JSON line parses, multiset of records = responses produced, CSV single header + rows per mapping in header order, no deadlock; all 6 (60) file orders observed. (b) histories of 1-2(3) runs appending to one file x 4 formats x persistence x parallelism: single header, rows accumulate, returned responses keep their information, input-plugin failures are written.",
             "Trusted: same as C06 (c). Replaying a prefix must reproduce the same (task,event) sequence or the run aborts as a machinery error; violating schedules are replayed twice by the replay command.", "§4.19"),
     "C20": ("E1", "bounded-exhaustive enumeration of routes/trees x geometry tables x 5 output formats through the real output plugins vs edge sequence and stored geometries",
             "Every enumerated network with a route is rendered through the real summary / traversal / uuid plugins in edge_id, json, geo_json, wkt and wkb (single routes and several KSP routes, trees, full geometry table and a table one row short, the latter also with the route rendering alone and the tree rendering alone so that one cannot mask the other): ids and per-edge records follow the returned edge sequence, geometry = concatenation of stored geometries in order, a missing geometry is an error response, one tree entry per branch, uuids of the matched vertices, summary = last state; plus an application-level pass per format.",
